@@ -393,6 +393,55 @@ class LogDomainProblem(Problem):
         return sps.diags(self.w / (x * x) + 1.0).tocoo()
 
 
+class ExpGrowthProblem(Problem):
+    """min sum_j exp(x_j) - b_j x_j on -5 <= x <= 800 (optionally x_1 + x_2 = c): exp overflows (inf, numpy 'overflow') at
+    trial points near the upper bound; minimiser x_j = log b_j."""
+
+    def __init__(self, b, cons=None):
+        self.b = np.asarray(b, dtype=float)
+        n = self.b.size
+        self.c = cons
+        if cons is None or n < 2:
+            self.c = None
+            super().__init__(np.full(n, -5.0), np.full(n, 800.0), num_cons=0)
+        else:
+            super().__init__(np.full(n, -5.0), np.full(n, 800.0), cons_lb=np.array([cons]), cons_ub=np.array([cons]))
+
+    def obj(self, x):
+        return float(np.sum(np.exp(x) - self.b * x))
+
+    def obj_grad(self, x):
+        return np.exp(x) - self.b
+
+    def cons(self, x):
+        return np.array([x[0] + x[1]]) if self.c is not None else np.zeros(0)
+
+    def cons_jac(self, x):
+        J = np.zeros((1 if self.c is not None else 0, x.size))
+        if self.c is not None:
+            J[0, :2] = 1.0
+        return sps.coo_matrix(J)
+
+    def lag_hess(self, x, y):
+        return sps.coo_matrix(np.diag(np.exp(x)))
+
+
+def narrowrow_problem(rng, L):
+    """min x0 + x1^2  s.t.  L <= x0 <= L + w (a genuine range of relative width 5e-6),  x0 >= L + 0.6 w: feasible, the
+    minimiser has x0 = L + 0.6 w; were the row read as the equation x0 = L it would be infeasible over the box."""
+    w = 5e-6 * L
+    prob = GenProblem(np.diag([0.0, 2.0]), np.array([1.0, 0.0]), np.array([[1.0, 0.0]]), np.zeros((1, 2)), np.zeros(1),
+                      np.array([L]), np.array([L + w]), np.array([L + 0.6 * w, -INF]), np.array([2.0 * L, INF]))
+    x0 = np.array([L + float(rng.uniform(0.6, 3.0)) * w, float(rng.uniform(-1, 1))])
+    return prob, x0, {}
+
+
+def expgrowth_problem(rng, n, cons=False):
+    b = rng.uniform(500.0, 5000.0, size=n)
+    prob = ExpGrowthProblem(b, cons=float(np.log(b[:2]).sum() + 0.5) if (cons and n >= 2) else None)
+    return prob, np.zeros(n), {}
+
+
 def logdomain_problem(rng, n, cons=False):
     w = rng.uniform(0.5, 2.0, size=n)
     a = rng.uniform(0.5, 2.0, size=n)
